@@ -139,6 +139,7 @@ type hist struct {
 	sqldb *sql.DB
 	db    *litestream.DB
 	fc    *file.ReplicaClient
+	down  atomic.Bool // storage outage: uploads fail
 	store *litestream.Store
 	base  int64 // unix ms subtracted from every time
 	rows  int
@@ -161,6 +162,21 @@ type hist struct {
 	h          HCase
 	fp         map[int]string // txid -> fingerprint of the quiescent source right after the sync that reached it
 	extraT     map[int]bool   // additional prioritised probe instants (around snapshots taken over unsynced commits)
+}
+
+// gateClient is the replica client litestream sees: the file client, with every LTX upload failing
+// while `down` is set (a storage outage). Listings and reads keep working.
+type gateClient struct {
+	*file.ReplicaClient
+	down *atomic.Bool
+}
+
+func (g gateClient) WriteLTXFile(ctx context.Context, level int, minTXID, maxTXID ltx.TXID, r io.Reader) (*ltx.FileInfo, error) {
+	if g.down.Load() {
+		io.Copy(io.Discard, r)
+		return nil, errors.New("injected storage outage")
+	}
+	return g.ReplicaClient.WriteLTXFile(ctx, level, minTXID, maxTXID, r)
 }
 
 func openHist(tmp string, h HCase) (*hist, error) {
@@ -196,7 +212,7 @@ func openHist(tmp string, h HCase) (*hist, error) {
 func (x *hist) attach() error {
 	x.db = litestream.NewDB(filepath.Join(x.dir, "db"))
 	x.db.MonitorInterval = 0
-	x.db.Replica = litestream.NewReplicaWithClient(x.db, x.fc)
+	x.db.Replica = litestream.NewReplicaWithClient(x.db, gateClient{x.fc, &x.down})
 	x.db.Replica.MonitorEnabled = false
 	x.store = litestream.NewStore([]*litestream.DB{x.db}, levelsN(x.h.LV))
 	x.store.Logger = quiet
@@ -726,6 +742,29 @@ func runHistory(tmp string, drv *hx.Driver, h HCase, res *hx.Result) (kind, sig,
 					return k, sg, w
 				}
 			}
+		case "outage":
+			x.down.Store(op.Arg != 0)
+			count(fmt.Sprintf("op-outage-%d", op.Arg))
+		case "dbsync":
+			// a commit reaches the local level-0 directory; the upload is attempted and may fail (outage)
+			for j := 0; j < op.Arg; j++ {
+				insert(100 + x.rows%5*400)
+			}
+			if err := x.db.Sync(ctx); err != nil {
+				return "", "", ""
+			}
+			if err := x.db.Replica.Sync(ctx); err != nil {
+				count("op-dbsync-upload-failed")
+			} else {
+				count("op-dbsync-uploaded")
+			}
+			notePos()
+			pending = 0
+			if _, f, err := fingerprint(x.sqldb); err == nil {
+				if old, ok := x.fp[x.lastPos]; !ok || old == f {
+					x.fp[x.lastPos] = f
+				}
+			}
 		case "commit":
 			for j := 0; j < op.Arg; j++ {
 				insert(op.Size)
@@ -919,6 +958,39 @@ func genRace(rnd *hx.Rand, n int) HCase {
 	return h
 }
 
+// genLag: the replica falls behind during a storage outage (local level-0 files pile up), litestream is
+// restarted or not, the outage ends, and a snapshot / compaction / retention pass runs before or after
+// the replica has caught up; then timestamps around every file's stamp are probed.
+func genLag(rnd *hx.Rand) HCase {
+	h := HCase{LV: 1 + rnd.Intn(2), ProbeSeed: rnd.Uint64()}
+	for i, n := 0, 2+rnd.Intn(3); i < n; i++ {
+		h.Ops = append(h.Ops, HOp{Op: "sync", Arg: 1, Sleep: 2})
+	}
+	h.Ops = append(h.Ops, HOp{Op: "outage", Arg: 1})
+	for i, n := 0, 1+rnd.Intn(4); i < n; i++ {
+		h.Ops = append(h.Ops, HOp{Op: "dbsync", Arg: 1 + rnd.Intn(2), Sleep: 3 + rnd.Intn(4)})
+	}
+	if rnd.Chance(70) {
+		h.Ops = append(h.Ops, HOp{Op: "restart", Sleep: 2})
+	}
+	h.Ops = append(h.Ops, HOp{Op: "outage", Arg: 0, Sleep: 3})
+	if rnd.Chance(25) {
+		h.Ops = append(h.Ops, HOp{Op: "sync", Arg: 0, Sleep: 2}) // the replica catches up first
+	}
+	switch rnd.Intn(4) {
+	case 0:
+		h.Ops = append(h.Ops, HOp{Op: "compact", Arg: 1, Sleep: 3})
+	default:
+		h.Ops = append(h.Ops, HOp{Op: "snapshot", Sleep: 3})
+	}
+	h.Ops = append(h.Ops, HOp{Op: "sync", Arg: rnd.Intn(2), Sleep: 4})
+	if rnd.Chance(40) {
+		h.Ops = append(h.Ops, HOp{Op: "compact", Arg: 1, Sleep: 2}, HOp{Op: "sync", Arg: 1, Sleep: 2})
+	}
+	h.Ops = append(h.Ops, HOp{Op: "probe"})
+	return h
+}
+
 // genRestart: daemon restart over a WAL with (or without) a stale tail, idle first syncs, a commit
 // that is not yet replicated, a snapshot, then the sync that replicates the commit.
 func genRestart(rnd *hx.Rand) HCase {
@@ -1017,7 +1089,7 @@ func main() {
 
 	res := hx.NewResult(o, "c15")
 	res.Rule = "one case = one (real listing, timestamp T) probe of CalcRestorePlan; counts as non-trivial when a plan is returned (distinct by listing and T)"
-	nHist, hLen, nRace, rLen, nRestart := 20, 28, 8, 4, 14
+	nHist, hLen, nRace, rLen, nRestart := 20, 28, 8, 4, 21
 	if o.Tier == "thorough" {
 		nHist, hLen, nRace, rLen, nRestart = 300, 45, 40, 6, 120
 	}
@@ -1063,8 +1135,13 @@ func main() {
 			h = genRace(rr, rLen)
 			res.Count("history-race")
 		} else if i < nRace+nRestart {
-			h = genRestart(rs)
-			res.Count("history-restart")
+			if i%3 == 2 {
+				h = genLag(rs)
+				res.Count("history-lag")
+			} else {
+				h = genRestart(rs)
+				res.Count("history-restart")
+			}
 		} else {
 			h = genHistory(rnd, hLen)
 		}
